@@ -144,7 +144,7 @@ Proof.
     repeat (apply andb_true_iff in H2 as [H2 ?]). assumption.
 Qed.
 
-Lemma rows_for_nil_state : forall t s e, forallb row_ok t = true -> ~ In s (src_states t) -> rows_for t s e = [].
+Lemma rows_for_nil_state : forall t s e, forallb row_ok t = true -> ~ In s (tps_states t) -> rows_for t s e = [].
 Proof.
   intros t s e Hwf Hn. unfold rows_for.
   destruct (filter (fun r => String.eqb (r_src r) s && String.eqb (r_ev r) e) t) as [|r l] eqn:E; [reflexivity|].
@@ -152,6 +152,7 @@ Proof.
   assert (In r (filter (fun r => String.eqb (r_src r) s && String.eqb (r_ev r) e) t)) as Hin by (rewrite E; left; reflexivity).
   apply filter_In in Hin as [Hin Hc]. apply andb_true_iff in Hc as [Hs He].
   apply String.eqb_eq in Hs. subst s.
+  unfold tps_states. apply in_or_app. left.
   unfold src_states. apply In_dedup. unfold present. apply filter_In. split.
   - apply in_map. assumption.
   - rewrite forallb_forall in Hwf. specialize (Hwf r Hin). unfold row_ok in Hwf.
@@ -218,14 +219,17 @@ Proof.
   - destruct Hin as [->|Hin]; [rewrite String.eqb_refl in E; discriminate|]. apply IH. assumption.
 Qed.
 
-Lemma lookup_state_def : forall t s, In s (src_states t) ->
+Lemma lookup_state_def : forall t s, In s (tps_states t) ->
   lookup_def ("process" ++ s) (prog_of t) = Some (state_body t s).
 Proof.
   intros t s Hin. unfold prog_of. cbn [lookup_def].
   assert (String.eqb "__init__" ("process" ++ s) = false) as -> by reflexivity.
   assert (s <> "") as Hs.
-  { intro. subst. unfold src_states in Hin. apply (proj1 (In_dedup _ _)) in Hin. unfold present in Hin.
-    apply filter_In in Hin as [_ H]. discriminate. }
+  { intro. subst. unfold tps_states in Hin. apply in_app_or in Hin as [Hin|Hin].
+    - unfold src_states in Hin. apply (proj1 (In_dedup _ _)) in Hin. unfold present in Hin.
+      apply filter_In in Hin as [_ H]. discriminate.
+    - apply filter_In in Hin as [Hin _]. unfold states in Hin. apply (proj1 (In_dedup _ _)) in Hin.
+      unfold present in Hin. apply filter_In in Hin as [_ H]. discriminate. }
   assert (String.eqb "process" ("process" ++ s) = false) as ->.
   { rewrite String.eqb_sym. apply process_name_neq. assumption. }
   apply lookup_state_defs. assumption.
@@ -238,7 +242,7 @@ Lemma run_process : forall gv e t cur n, forallb row_ok t = true ->
 Proof.
   intros gv e t cur n Hwf. unfold run_method.
   change (lookup_def "process" (prog_of t)) with (Some (process_body t)). unfold process_body.
-  destruct (in_dec string_dec cur (src_states t)) as [Hin|Hn].
+  destruct (in_dec string_dec cur (tps_states t)) as [Hin|Hn].
   - rewrite exec_dispatch_hit by assumption. unfold call1. rewrite lookup_state_def by assumption.
     pose proof (exec_state_body gv e call0 t cur n Hwf) as H. rewrite H.
     destruct (step_rows gv n cur e (rows_for t cur e)) as [[tr c] n']. reflexivity.
